@@ -87,4 +87,35 @@ pub fn run(ctx: &'static Ctx) {
         else if i == nw { let t = vec!["zoo"; 10_000].join(" "); crash(ctx, "phrase-neighbourhood", i, "words=10000", "Mnemonic::from_phrase", "zoo x 10000", guard(|| { let _ = Mnemonic::from_phrase(&t); })); }
         else { let n = match i - nw - 1 { k @ 0..=40 => k as usize, 41 => usize::MAX, 42 => usize::MAX / 11, 43 => 1 << 32, _ => (1usize << 61) + 3 }; crash(ctx, "phrase-neighbourhood", i, "random-length", "Mnemonic::random", &n.to_string(), guard(|| { let _ = Mnemonic::random(Language::English, n).map(|m| m.to_phrase()); })); }
     });
+    // 9. diagnostics that echo the input: a value of the WRONG KIND that is long and not ASCII, at every length around the
+    // places where a message is likely to be cut (16..=140 bytes, and around 256 / 1024), with 2-, 3- and 4-byte characters, so
+    // that every cut position falls inside a character for some case; in typed data (struct member, array member, atomic
+    // members), in transactions (every field), as phrase, path, signature and digest text
+    let chars = ["\u{e9}", "\u{3042}", "\u{1f600}"]; let lens: Vec<usize> = (16..=140).chain(250..=262).chain(1018..=1030).collect();
+    let sites = ["td-struct-member", "td-array-member", "td-uint-member", "td-address-member", "td-bytes32-member", "td-bool-member", "td-type-name", "tx-to", "tx-nonce", "tx-data", "tx-access-list", "phrase", "path", "signature"];
+    ctx.sweep("diagnostic-echo", "a long non-ASCII text where another kind of value is expected: 14 sites x 151 byte lengths (16..=140, 250..=262, 1018..=1030) x 2-, 3- and 4-byte characters (the text is `a` * k followed by the character repeated): an ordinary error", (sites.len() * lens.len() * chars.len()) as u64, |i| {
+        let mut k = i as usize; let mut take = |m: usize| { let v = k % m; k /= m; v };
+        let ch = chars[take(chars.len())]; let len = lens[take(lens.len())]; let site = sites[take(sites.len())];
+        // `a` * (len mod character size ... ) so that byte `len` is not a boundary for some offset: shift by 0..3 with the index
+        let shift = (i as usize / 7) % 4; let mut text = "a".repeat(shift); while text.len() < len + 8 { text.push_str(ch); }
+        let shape = format!("echo:{site},char-bytes={}", ch.len());
+        let person = ("Person".to_string(), tdcheck::sv(&[("name", "string")]));
+        let td = |member_ty: &str, v: J| -> String { tdcheck::simple_doc(vec![("Msg".into(), tdcheck::sv(&[("x", member_ty)])), person.clone()], "Msg", J::obj(vec![("x", v)])).to_json().to_text() };
+        let r: Result<(), String> = match site {
+            "td-struct-member" => guard(|| { let _ = tdcheck::observe(&td("Person", J::Str(text.clone()))); }),
+            "td-array-member" => guard(|| { let _ = tdcheck::observe(&td("string[]", J::Str(text.clone()))); }),
+            "td-uint-member" => guard(|| { let _ = tdcheck::observe(&td("uint256", J::Str(text.clone()))); }),
+            "td-address-member" => guard(|| { let _ = tdcheck::observe(&td("address", J::Str(text.clone()))); }),
+            "td-bytes32-member" => guard(|| { let _ = tdcheck::observe(&td("bytes32", J::Str(format!("0x{text}")))); }),
+            "td-bool-member" => guard(|| { let _ = tdcheck::observe(&td("bool", J::Str(text.clone()))); }),
+            "td-type-name" => guard(|| { let _ = tdcheck::observe(&td(&text, J::n("1"))); }),
+            "phrase" => guard(|| { let _ = Mnemonic::from_phrase(&format!("abandon {text} about")); let _ = text.parse::<Mnemonic>(); }),
+            "path" => guard(|| { let _ = format!("m/{text}").parse::<hdk::Path>(); let _ = format!("m/0/{text}'/1").parse::<hdk::Path>(); }),
+            "signature" => guard(|| { let _ = text.parse::<hdwallet::account::Signature>(); let _ = format!("0x{text}").parse::<hdwallet::account::Signature>(); }),
+            tx_site => { let mut f = txjson::tx_fields(&txjson::template(Kind::Eip1559, true), Spell::Auto);
+                match tx_site { "tx-to" => txjson::set(&mut f, "to", Some(J::Str(format!("0x{text}")))), "tx-nonce" => txjson::set(&mut f, "nonce", Some(J::Str(text.clone()))), "tx-data" => txjson::set(&mut f, "data", Some(J::Str(format!("0x{text}")))), _ => txjson::set(&mut f, "accessList", Some(J::Arr(vec![J::Str(text.clone())]))) }
+                let doc = J::Obj(f).to_text(); guard(|| { let _ = observe_tx(&doc, &Signer::Fixed(U256::from_u64(1), U256::from_u64(1), false)); }) }
+        };
+        crash(ctx, "diagnostic-echo", i, &shape, site, &format!("{} bytes, shift {shift}", text.len()), r);
+    });
 }
